@@ -7,7 +7,7 @@ let mode_of s =
   else
     let k = int_of_string (String.sub s 1 (String.length s - 1)) in
     let k = if k < 1 then 1 else k in
-    if s.[0] = 'n' then -k else k
+    if s.[0] = 'n' then -k else if s.[0] = 'b' then 1000 + k else k
 
 let parse_op f =
   let rest = String.sub f 1 (String.length f - 1) in
@@ -28,11 +28,14 @@ let parse_ops s =
   if s = "." || s = "" then []
   else List.filter (fun x -> x <> "") (String.split_on_char ';' s) |> List.map parse_op
 
+(* the limit is kept as a Z: limits up to 2^63-1 can be replayed *)
 let parse_input inp =
   match words inp with
-  | ["H"; lim; mode] -> (int_of_string lim, mode, [])
-  | ["H"; lim; mode; ops] -> (int_of_string lim, mode, parse_ops ops)
+  | ["H"; lim; mode] -> (z_of_string lim, mode, [])
+  | ["H"; lim; mode; ops] -> (z_of_string lim, mode, parse_ops ops)
   | _ -> failwith "bad input"
+
+let zpos = function M.Zpos _ -> true | _ -> false
 
 let show_pairs l =
   if l = [] then "." else String.concat "," (List.map (fun (a, b) -> string_of_int a ^ ":" ^ string_of_int b) l)
@@ -66,7 +69,7 @@ let show_run evs =
 
 let model variant inp =
   let (lim, mode, ops) = parse_input inp in
-  show_run (M.run_Z variant (z_of_int (mode_of mode)) (z_of_int lim) ops)
+  show_run (M.run_Z variant (z_of_int (mode_of mode)) lim ops)
 
 let eval inp = model M.current_variant inp
 
@@ -88,8 +91,8 @@ let parse_obs (o : (M.z, M.z) M.op) s =
                      | [ok; v] -> M.RGet (z_of_int (int_of_string v), ok = "1")
                      | _ -> failwith "bad get")
       | M.OClear -> M.RUnit
-      | M.OLen | M.OSize -> M.RNum (z_of_int (int_of_string res)) in
-    ((r, parse_pairs ev), int_of_string ln, int_of_string sz)
+      | M.OLen | M.OSize -> M.RNum (z_of_string res) in
+    ((r, parse_pairs ev), int_of_string ln, z_of_string sz)
   | _ -> failwith "bad observation"
 
 let show_op = function
@@ -107,35 +110,46 @@ let rec first_diff i a b =
 
 let zeq a b = (a : M.z) = b
 
+(* Z order, structurally (no use of the model's arithmetic) *)
+let zle a b = match M.Z.compare a b with M.Gt -> false | _ -> true
+
 let spec prop inp out =
   (* C09: the sequential object of the linearizability claim is checked against the policy-agnostic
      reference only (the eviction order, known finding F2, is C08's business) *)
   if prop <> "C08" && prop <> "C09" then None else
-  let (lim, mode, ops) = parse_input inp in
-  if lim <= 0 || (mode <> "u" && mode.[0] = 'n') then None else
+  let (zlim, mode, ops) = parse_input inp in
+  if not (zpos zlim) then
+    (* New's documented panic, and nothing else *)
+    (if prop = "C08" && out <> "NEWPANIC" then Some "cache.New with limit <= 0 did not panic" else None)
+  else
+  (* negative sizes: no cache can keep Size <= limit (removing a negative-size entry raises Size);
+     every other clause is checked *)
+  let negative = mode <> "u" && mode.[0] = 'n' in
   let obs_s = if out = "" then [] else String.split_on_char ';' out in
-  if List.exists (fun s -> String.length s >= 5 && String.sub s 0 5 = "PANIC") obs_s then
-    Some "panic on a history with limit > 0 and sizes >= 0"
+  if List.exists (fun s -> (String.length s >= 5 && String.sub s 0 5 = "PANIC") || s = "NEWPANIC") obs_s then
+    Some "panic on a history with limit > 0"
   else if out = "hang" then Some "hang"
   else if List.length obs_s <> List.length ops then Some "wrong number of observations"
   else begin
-    let sizeOf = M.size_mode (z_of_int (mode_of mode)) and zlim = z_of_int lim in
+    let sizeOf = M.size_mode (z_of_int (mode_of mode)) in
     let parsed = List.map2 parse_obs ops obs_s in
     let obs = List.map (fun (o, _, _) -> o) parsed in
     let accounting states =
       (* Len = number of present keys, Size = sum of their sizes <= limit, after every call *)
       let rec go i ps ss = match ps, ss with
         | (_, ln, sz) :: ps', st :: ss' ->
-          let want_sz = int_of_z (M.total sizeOf st) in
+          let want_sz = M.total sizeOf st in
           if ln <> List.length st then Some (Printf.sprintf "call #%d %s: Len()=%d but %d keys are present" i (show_op (List.nth ops i)) ln (List.length st))
-          else if sz <> want_sz then Some (Printf.sprintf "call #%d %s: Size()=%d but the present values sum to %d" i (show_op (List.nth ops i)) sz want_sz)
-          else if sz > lim then Some (Printf.sprintf "call #%d: Size()=%d exceeds the limit %d" i sz lim)
+          else if sz <> want_sz then Some (Printf.sprintf "call #%d %s: Size()=%s but the present values sum to %s" i (show_op (List.nth ops i)) (string_of_z sz) (string_of_z want_sz))
+          else if not negative && not (zle sz zlim) then Some (Printf.sprintf "call #%d: Size()=%s exceeds the limit %s" i (string_of_z sz) (string_of_z zlim))
           else go (i + 1) ps' ss'
         | _, _ -> None in
       go 0 parsed states in
     let want = M.s2_run zeq M.Z0 sizeOf zlim [] ops in
-    (* the property fixes the order of the victims of a Put; for Clear it only asks that every
-       entry is reported once, so Clear's log is compared as a multiset *)
+    (* The order clause of the property is about the victims of a Put ("evicts exactly the
+       least-recently-used entries ... in that order"); for Clear it asks that the callback fires
+       exactly once, with key and value, for every entry cleared -- no order.  So Clear's log is
+       compared as a multiset (every entry, once, right value), every other log as a sequence. *)
     let norm l = List.map2 (fun o (r, log) -> if o = M.OClear then (r, List.sort compare log) else (r, log)) ops l in
     match (if prop = "C09" then Some 0 else first_diff 0 (norm obs) (norm want)) with
     | None -> accounting (M.s2_states zeq M.Z0 sizeOf zlim [] ops)
@@ -155,15 +169,26 @@ let spec prop inp out =
          (match accounting (M.s1_states zeq M.Z0 sizeOf zlim [] ops obs) with
           | Some r -> Some (what ^ "; " ^ r)
           | None ->
-            (* only the choice/order of victims differs from LRU.  Known finding F2 (heapq.pop never
-               sifts up) iff the pinned-variant model reproduces this very output and the model with
-               the repaired heap gives the reference's answers on this history. *)
+            (* Only the choice/order of a Put's victims differs from LRU.  It is the known finding F2
+               (heapq.pop never sifts up) only if ALL of:
+                 (1) the model of the pinned code reproduces this very output, internals included
+                     (heap array, key->offset map, clock after every call) -- so the implementation
+                     did nothing on this history that the pinned model does not do;
+                 (2) the model with the repaired heap -- the same model, only the two heap switches
+                     differ -- gives exactly the reference's answers on this history -- so the two
+                     switches are what makes the difference;
+                 (3) the F2 trigger (a heapq.Remove that needs a sift-up, CacheModel.rm_safe) does fire
+                     on this history in the pinned model (by C08_lru_partial it must, given (1));
+                 (4) the sizes are non-negative (the scope of the known finding).
+               Anything else is a new violation. *)
+            let zmode = z_of_int (mode_of mode) in
             let pinned_same = (try model M.pinned inp = out with _ -> false) in
             let repaired_ok =
               (try List.map (function (M.EOk (r, l), _) -> (r, l) | _ -> failwith "x")
-                     (M.run_Z M.repaired (z_of_int (mode_of mode)) zlim ops) = want with _ -> false) in
+                     (M.run_Z M.repaired zmode zlim ops) = want with _ -> false) in
+            let trigger_fired = (try not (M.safe_Z M.pinned zmode zlim ops) with _ -> false) in
             Some (what ^ " (a present entry that is not the least recently used one was evicted first)"
-                  ^ (if pinned_same && repaired_ok then " known=F2" else ""))))
+                  ^ (if pinned_same && repaired_ok && trigger_fired && not negative then " known=F2" else ""))))
   end
 
 let () = run_main ~eval ~spec
